@@ -48,13 +48,21 @@ func contains(list []string, s string) bool {
 // Build identifies a program build.
 type Build struct{ Program, Version, GoVersion, GOOS, GOARCH string }
 
+// program returns what the configuration lists for the program: the union of all entries of that name
+// (a program may be listed more than once).
 func program(cfg *telemetry.UploadConfig, name string) *telemetry.ProgramConfig {
+	var out *telemetry.ProgramConfig
 	for _, p := range cfg.Programs {
 		if p.Name == name {
-			return p
+			if out == nil {
+				out = &telemetry.ProgramConfig{Name: name}
+			}
+			out.Versions = append(out.Versions, p.Versions...)
+			out.Counters = append(out.Counters, p.Counters...)
+			out.Stacks = append(out.Stacks, p.Stacks...)
 		}
 	}
-	return nil
+	return out
 }
 
 // BuildApproved is the C01 notion (path, version, Go version); withOS adds
